@@ -76,6 +76,61 @@ theorem C14_counts (rows : List Row) :
   have h := this rows {} rfl rfl
   simpa using h
 
+/-- **C14 (per metric, exactly)**: for every payload and every metric name, the per-metric detail
+    holds exactly the number of samples of that name before and after relabeling — whatever the
+    order of the samples, however the body is cut into blocks. -/
+theorem C14_per_metric (rows : List Row) (m : Nat) :
+    ((statistic rows).per.get m).getD (0, 0) =
+      (rows.countP (fun r => r.metric == m), rows.countP (fun r => r.metric == m && r.kept)) := by
+  unfold statistic
+  have : ∀ (rows : List Row) (r : Stats),
+      ((rows.foldl statStep r).per.get m).getD (0, 0) =
+        (((r.per.get m).getD (0, 0)).1 + rows.countP (fun r => r.metric == m),
+         ((r.per.get m).getD (0, 0)).2 + rows.countP (fun r => r.metric == m && r.kept)) := by
+    intro rows
+    induction rows with
+    | nil => intro r; simp
+    | cons row rows ih =>
+      intro r
+      simp only [List.foldl_cons]
+      rw [ih (statStep r row)]
+      have hstep : ((statStep r row).per.get m).getD (0, 0) =
+          (((r.per.get m).getD (0, 0)).1 + (if row.metric = m then 1 else 0),
+           ((r.per.get m).getD (0, 0)).2 + (if row.metric = m ∧ row.kept = true then 1 else 0)) := by
+        cases hk : row.kept with
+        | true =>
+          simp only [statStep, hk, Gen.Sidecar.statKeep, Gen.Sidecar.statTotalNext, Gen.Sidecar.statScrapedNext,
+            Gen.Sidecar.statMetricTotalNext, Gen.Sidecar.statMetricScrapedNext, if_true]
+          rw [AL.get_set]
+          by_cases hm : row.metric = m
+          · subst hm; simp
+          · simp [hm]
+        | false =>
+          simp only [statStep, hk, Gen.Sidecar.statKeep, Gen.Sidecar.statTotalNext,
+            Gen.Sidecar.statMetricTotalNext, Bool.false_eq_true, if_false]
+          rw [AL.get_set]
+          by_cases hm : row.metric = m
+          · subst hm; simp
+          · simp [hm]
+      rw [hstep]
+      simp only [List.countP_cons, beq_iff_eq, Bool.and_eq_true]
+      by_cases hm : row.metric = m <;> by_cases hk : row.kept = true <;> simp [hm, hk] <;> omega
+  have h := this rows {}
+  simpa [AL.get] using h
+
+/-- … in particular the whole statistic does not depend on the order in which the samples (or the
+    blocks the parser cuts the body into) are counted -/
+theorem C14_order_independent (rows rows' : List Row) (hp : rows.Perm rows') :
+    (statistic rows).total = (statistic rows').total ∧ (statistic rows).scraped = (statistic rows').scraped ∧
+    ∀ m, ((statistic rows).per.get m).getD (0, 0) = ((statistic rows').per.get m).getD (0, 0) := by
+  obtain ⟨t1, s1, _, _⟩ := C14_counts rows
+  obtain ⟨t2, s2, _, _⟩ := C14_counts rows'
+  refine ⟨by rw [t1, t2, hp.length_eq], by rw [s1, s2, hp.countP_eq], ?_⟩
+  intro m
+  rw [C14_per_metric, C14_per_metric, hp.countP_eq, hp.countP_eq]
+
+example : ((statistic [⟨1, true⟩, ⟨2, false⟩, ⟨1, false⟩, ⟨1, true⟩]).per.get 1).getD (0, 0) = (3, 2) := by decide
+
 /-! ### the sliding window -/
 
 theorem lastN_snoc (hist : List Int) (x : Int) :
